@@ -690,6 +690,22 @@ func (c *SpecCtx) evalCall(x *ECall) *V {
 			at = a.Sl.Arr
 		}
 		return boolV(app(SBool, ">", at, c.old.alloc))
+	case "mk":
+		// mk("pkg.Type", field values...) builds a struct value
+		ts, ok := x.Args[0].(*EStr)
+		if !ok {
+			c.fail("mk expects a type name string")
+		}
+		t := u.eng.resolveType(ts.V, c.pkg)
+		st := structOf(t)
+		if st == nil || st.NumFields() != len(x.Args)-1 {
+			c.fail("mk(%q): not a struct type with %d fields", ts.V, len(x.Args)-1)
+		}
+		v := &V{Typ: t, F: make([]*V, st.NumFields())}
+		for k := 0; k < st.NumFields(); k++ {
+			v.F[k] = c.coerceTo(c.eval(x.Args[k+1]), st.Field(k).Type())
+		}
+		return v
 	case "samearray":
 		a, b := c.eval(x.Args[0]), c.eval(x.Args[1])
 		if a.Sl == nil || b.Sl == nil {
